@@ -367,6 +367,13 @@ func checkC07(c *Ctx) {
 
 var seedStatementSnippets = []string{
 	"x := 1; x++; x += 2",
+	// a call as the init statement of if / else if yields nothing; copy yields its count only when asked for it
+	"func tick() int { return 7 }; x := 0; if tick(); x == 0 { x = 1 }",
+	"func tick() int { return 7 }; x := 0; if x > 0 { x = 2 } else if tick(); x == 0 { x = 1 }",
+	"func none() { }; x := 0; if none(); x == 0 { x = 1 }",
+	"a := []int{1, 2, 3}; b := []int{9}; n := copy(a, b); copy(a, b); _ = n",
+	"func cp() int { a := []int{1, 2, 3}; n := copy(a, []int{7, 8}); return n + a[0] }; r := cp(); _ = r",
+	"func f(_ int, _ int, x int) int { y := x; return y }; r := f(1, 2, 3); _ = r",
 	"x := 0; for i := 0; i < 3; i++ { x += i }",
 	"func f(a int) int { return a + 1 }; y := f(2); _ = y",
 	"func g() (int, int) { return 1, 2 }; a, b := g(); a, b = b, a",
